@@ -2956,6 +2956,7 @@ impl<'p> Evaluator<'_, 'p> {
         let sum = sum + item_value;
         let index = index + 1;
         if index == array.len() {
+            self.check_number_value(sum, None)?;
             self.value_stack.push(ValueData::Number(sum));
         } else {
             let item_thunk = array[index].view();
